@@ -8,7 +8,10 @@ Open Scope string_scope.
 Open Scope list_scope.
 
 (* A renaming rho of the column names of a universe U is admissible when it neither merges nor
-   splits names that the (case-insensitive) backends identify. *)
+   splits names that the (case-insensitive) backends identify.
+   `lower` is ASCII lower-casing (A-Z only): the model, the theorems and the correspondence pool
+   are about ASCII column names; Python's str.lower() on non-ASCII identifiers (and the backends'
+   own case folding of them) is outside this layer. *)
 
 (* (a) which comparisons the EM training rule deactivates: for every admissible renaming, every
    rule and every comparison over U - whatever the names look like (suffix-like parts such as
@@ -70,6 +73,7 @@ Lemma rho_ok_single : forall a rho, rho_ok [a] rho.
 Proof.
   intros a rho x y [Hx|[]] [Hy|[]]. subst. split; reflexivity.
 Qed.
+Print Assumptions rho_ok_single.
 
 (* 7.6 / fix 6a6654d9: lower() on the level side only *)
 Definition ops_one_sided_lower : ops :=
@@ -178,3 +182,24 @@ Example C13_idents_example :
     match option_map (apply_strip (StripEnd true)) (unquote dq (name_l o dq n)) with
     | Some c => String.eqb c n | None => false end) tricky = true.
 Proof. vm_compute. reflexivity. Qed.
+
+(* multi-column witness: three comparisons (forename, surname, and one on both columns), a rule on both
+   columns; the two-column exact level is preferred (longest first), the single-column levels are then
+   no longer matched, all three comparisons are deactivated - identically under a renaming that moves
+   the suffix-like / upper-case / keyword names around, and under a different spelling of the rule *)
+Definition two (c d : string) : acomparison := [ANull [c; d]; AExact [c; d]; AFuzzy [c]; AElse].
+Definition rho2 : string -> string :=
+  fun s => if String.eqb s "forename" then "Name_Last" else if String.eqb s "surname" then "group"
+           else if String.eqb s "FORENAME" then "NAME_LAST" else s.
+Example C13_idents_multi_column_example :
+  let o := ops_modelled IdName in
+  let cs := [one "forename"; one "surname"; two "forename" "surname"; one "dob"] in
+  levels_for_rule o dq ["FORENAME"; "surname"] (map (render (fun x => x)) cs) = Some [(2, 1)] /\
+  levels_for_rule o dq (map rho2 ["FORENAME"; "surname"]) (map (render rho2) cs) = Some [(2, 1)] /\
+  levels_for_rule o dq ["surname"] (map (render rho2) cs) = Some [] /\
+  levels_for_rule o dq (map rho2 ["surname"]) (map (render rho2) cs) = Some [(1, 1)] /\
+  deactivated o dq (map rho2 ["FORENAME"; "surname"]) (map (render rho2) cs) = [true; true; true; false] /\
+  deactivated o dq ["FORENAME"; "surname"] (map (render (fun x => x)) cs) = [true; true; true; false] /\
+  cc_cols o (render rho2 (two "forename" "surname")) = ["Name_Last"; "group"] /\
+  default_output_name o dq (render rho2 (two "forename" "surname")) = None.
+Proof. vm_compute. repeat split; reflexivity. Qed.
